@@ -57,6 +57,10 @@ Definition has_marker (j : cls) (header : list Z) : bool := existsb (fun b : boo
 Definition no_foreign_marker (k : cls) (header : list Z) : bool :=
   forallb (fun j => cls_eqb j k || negb (has_marker j header)) options.
 
+(* no magic that any score looks for at offset 0 (Musepack SV4-SV6 streams have none) *)
+Definition no_known_magic (header : list Z) : bool :=
+  forallb (fun c => forallb (fun p => negb (starts_with p header)) (prefixes_of c)) options.
+
 (* ---- specification of the formats (independent of the scores) ---- *)
 Definition starts (magic header : list Z) : Prop := starts_with magic header = true.
 Definition has (marker header : list Z) : Prop := contains marker header = true.
